@@ -18,6 +18,19 @@ from .core import BOUNDARY, Ctx, Taps, guarded
 from .gen import objects as O
 from .oracles import geometry as G
 
+def _lib_of():
+    # library functions are called from the modules that define them (not through a name another module happens to import)
+    import perception_eval.evaluation.matching.objects_filter as m
+
+    return m
+
+
+def _lib_or():
+    import perception_eval.evaluation.result.object_result as m
+
+    return m
+
+
 MAXIMIZE = {MatchingMode.IOU2D: True, MatchingMode.IOU3D: True, MatchingMode.CENTERDISTANCE: False, MatchingMode.PLANEDISTANCE: False}
 
 
@@ -565,7 +578,7 @@ def run_direct_matching(ctx: Ctx, workload: str, n_cases: int, max_n: int = 24) 
         ctx.begin_case(workload, idx, **c["case"])
         kw = c["kwargs"]
         try:
-            res = mgr_mod.get_object_results(**kw)
+            res = _lib_or().get_object_results(**kw)
         except Exception as e:  # valid inputs must not raise
             ctx.violation(
                 f"C01/exception:{type(e).__name__}",
